@@ -1,7 +1,8 @@
 (* C02m: several connections run interleaved; every connection's case is judged on its own by the
-   predicates of C10 (which include C02's wire predicate for fault-free runs) and by the model. *)
+   predicates of C10 (which include C02's wire predicate for fault-free runs), by those of C20 (the
+   connections may share one BufferPool) and by the model. *)
 Require Import WS.Base.Bytes WS.Base.Tape WS.Model.Writer WS.Cases.WriterCase.
-Require WS.Cases.C10.
+Require WS.Cases.C10 WS.Cases.C20.
 
 Fixpoint judge_all (n:nat) (t:tape) : tape :=
   match n with
@@ -12,7 +13,10 @@ Fixpoint judge_all (n:nat) (t:tape) : tape :=
           match take (N.to_nat len) rest with
           | Some (sub, rest') =>
               match C10.judge sub with
-              | 0 :: _ => judge_all n' rest'
+              | 0 :: _ => match C20.judge sub with
+                          | 0 :: _ => judge_all n' rest'
+                          | v => v
+                          end
               | v => v
               end
           | None => v_badtape
